@@ -312,7 +312,7 @@ PROPS['C08'] = dict(
     theorems=[],
     runner=ParallelRunner(quick=[('par_x', 1500), ('par_y', 500), ('par_z', 500)], thorough=[('par_x', 40000), ('par_y', 10000), ('par_z', 10000)],
                           which={'terminate'}),
-    rule='same runs as C07 under a 8 s watchdog per call and a thread census (with grace period) after each call; '
+    rule='same runs as C07 under a 15 s watchdog per call and a thread census (with grace period) after each call; '
          'consumer plans: drain / stop after k for every k / never ask; reader error; reader- and data-set-init failures',
     assumptions=ASSUME_PAR,
 )
@@ -541,3 +541,12 @@ PROPS['C13']['runner'] = ReaderRunner(
 
 for _k, _v in PROPS.items():
     _v['theorems'] = _req.get(_k, [])
+
+
+# which fields of a record observation the exact comparison looks at, per property (None = all): a harmless
+# rewrite of, say, write_unchanged then trips C11 and C13 only
+RECORD_FIELDS = {
+    'C01': set('hln'), 'C02': set('hsq'), 'C03': set('hlsqn'), 'C04': set('hlsq'), 'C05': set('hlsq'),
+    'C06': set('hlsq'), 'C09': set('h'), 'C11': set('hulsq'), 'C12': set('hlsqn'), 'C14': set('hlsq'),
+    'C17': set('h'), 'C18': set('h'),
+}
